@@ -3,6 +3,8 @@ import os
 import sys
 import time
 
+import threading
+
 from vf import core
 from vf import harness
 from vf import sched
@@ -94,6 +96,15 @@ def make_world(hname):
   def make():
     harness.hard_reset()
     gin.parse_config(CONFIG)
+    # History: a thread that used scopes has already come and gone (thread identifiers are recycled by the OS: the
+    # next thread started typically receives the identifier of the one that just died).
+    def gone():
+      with gin.config_scope('gone'):
+        with gin.config_scope('deeper'):
+          gin.current_scope()
+    t = threading.Thread(target=gone)
+    t.start()
+    t.join()
     return HARNESSES[hname]()
   return make
 
